@@ -42,14 +42,20 @@ package socks5
 //@ func AppendAddrFromConnAddr
 //@   requires conn.AddrWF(addr)
 
+// Exactly which byte strings the parsers accept (completeness: a well-formed address is never refused).
+//@ pure ipAddrParsable(b []byte) bool = len(b) >= 7 && (b[0] == 1 || (b[0] == 4 && len(b) >= 19))
+//@ pure addrParsable(b []byte) bool = len(b) >= 2 && ((b[0] == 1 && len(b) >= 7) || (b[0] == 4 && len(b) >= 19) || (b[0] == 3 && b[1] != 0 && len(b) >= 4 + int(b[1])))
+
 //@ func AddrPortFromSlice
 //@   modifies nothing
+//@   ensures isnil(result2) <==> ipAddrParsable(b)
 //@   ensures isnil(result2) ==> (result1 == 7 || result1 == 19) && result1 <= len(b)
 //@   ensures isnil(result2) ==> result1 >= LengthOfAddrFromAddrPort(result0)
 //@   ensures !isnil(result2) ==> result1 == 0
 
 //@ func ConnAddrFromSlice
 //@   modifies nothing
+//@   ensures isnil(result2) <==> addrParsable(b)
 //@   ensures isnil(result2) && result0.IsDomain() ==> domainEnc(b, result0.Domain(), result0.Port()) && result1 == 4 + len(result0.Domain())
 //@   ensures isnil(result2) && result0.IsIP() && b[0] == 1 ==> ip4Enc(b, result0.IP(), result0.Port()) && result1 == 7
 //@   ensures isnil(result2) && result0.IsIP() && b[0] == 4 ==> ip6Enc(b, result0.IP(), result0.Port()) && result1 == 19
@@ -80,6 +86,7 @@ package socks5
 
 //@ func (*DomainCache).ConnAddrFromSlice
 //@   requires dcWF(c)
+//@   ensures isnil(result2) <==> addrParsable(b)
 //@   ensures isnil(result2) ==> conn.AddrWF(result0) && result0.IsValid() && result1 >= 5 && result1 <= 259 && result1 <= len(b)
 //@   ensures isnil(result2) ==> result1 >= LengthOfAddrFromConnAddr(result0)
 
@@ -92,6 +99,7 @@ package socks5
 //@ func ValidatePacketHeader
 //@   requires len(b) >= 3
 //@   modifies nothing
+//@   ensures isnil(result) <==> b[2] == 0
 
 // A reply carries the status and the unspecified IPv4 bound address.
 //@ func replyWithStatus
